@@ -274,7 +274,7 @@ func c06Run(c *core.Ctx) {
 		c06WL(c, w, maxLeaves*4)
 	}
 	// lists with uncapitalisable / pre-capitalised words under one and random
-	extra := [][]string{{"Ab", "Cd"}, {"Ab", "cd", "ef"}, {"4", "5"}, {"ab", "Polish", "polish", "4"}, {"正確", "ab"}}
+	extra := [][]string{{"Ab", "Cd"}, {"Ab", "cd", "ef"}, {"4", "5"}, {"ab", "Polish", "polish", "4"}, {"正確", "ab"}, {"ßx", "ab"}, {"ﬁsh", "ŉa", "cd"}, {"ĸa", "b"}}
 	for _, ws := range extra {
 		for _, cp := range []string{"one", "random", "first", "all"} {
 			for _, L := range []int{1, 2, 3} {
